@@ -325,6 +325,7 @@ def execute(plan):
     compared = 0
     seen_gspec, seen_opgrid, eq_states = {}, {}, {}
     relinked = set()
+    linked_members = {}  # cid -> field ids whose data is linked to this collection's array
     poison_keep = []
 
     def bump(group, name, n=1):
@@ -357,6 +358,19 @@ def execute(plan):
             try:
                 L.colls[op["cid"]] = pde.FieldCollection(members, copy_fields=bool(op["copy_fields"]))
                 L.colls_grid[op["cid"]] = gid0
+                links = not op["copy_fields"] and len(set(op["fids"])) == len(op["fids"])  # identical fields force a copy
+                if links:
+                    # "it is basically impossible to have fields that are linked to multiple collections at the same
+                    # time" (documented): a collection whose member was taken over by this one is no longer usable
+                    for other, fids in list(linked_members.items()):
+                        if other != op["cid"] and set(fids) & set(op["fids"]):
+                            L.colls.pop(other, None)
+                            L.colls_grid.pop(other, None)
+                            linked_members.pop(other, None)
+                            bump("probes", "collection_dropped_after_member_relinked")
+                    linked_members[op["cid"]] = list(op["fids"])
+                else:
+                    linked_members.pop(op["cid"], None)
                 if not op["copy_fields"]:
                     relinked.update(op["fids"])
                 log.add(k, kind, "ok", op["cid"], op["fids"], op["copy_fields"])
